@@ -10,7 +10,10 @@ import (
 	"bytes"
 	"fmt"
 	"free5gclib/ngap"
+	"math/rand"
+	"os"
 	"reflect"
+	"strconv"
 	"time"
 
 	"vspec/ngap38413"
@@ -80,7 +83,7 @@ func vcBounded_ngapRoundTrip() {
 }
 
 // prop: C14
-// bound: every prefix, every single-bit flip and every single-octet replacement by 00/FF/80/7F of the encodings above (about 150 messages of 20..2100 octets): the decoder returns within 2 s with a value or an error, no panic
+// bound: every prefix, every single-bit flip and every single-octet replacement by 00/FF/80/7F of the encodings above (about 150 messages of 20..2100 octets): the decoder returns within 2 s with a value or an error, no panic; thorough tier: additionally 4000 seeded random corruptions of 2..6 octets (a quarter of them truncated) per message
 func vcBounded_ngapDecoderTotal() {
 	try := func(name string, b []byte) {
 		done := make(chan string, 1)
@@ -110,6 +113,20 @@ func vcBounded_ngapDecoderTotal() {
 		seen[m.name[:8]] = true
 		for i := 0; i <= len(m.b); i++ {
 			try(m.name+" prefix", m.b[:i])
+		}
+		if os.Getenv("VERIF_TIER") == "thorough" {
+			// thorough tier: 4000 random corruptions of 2..6 octets per message, and random truncations of them
+			rnd := rand.New(rand.NewSource(int64(len(m.b)) + vcSeedValue()))
+			for k := 0; k < 4000; k++ {
+				c := append([]byte{}, m.b...)
+				for j := 2 + rnd.Intn(5); j > 0; j-- {
+					c[rnd.Intn(len(c))] = byte(rnd.Intn(256))
+				}
+				if rnd.Intn(4) == 0 {
+					c = c[:rnd.Intn(len(c)+1)]
+				}
+				try(m.name+" random corruption", c)
+			}
 		}
 		for i := 0; i < len(m.b); i++ {
 			for bit := 0; bit < 8; bit++ {
@@ -328,4 +345,9 @@ func vcBounded_wrappersOnTheWire() {
 	if _, err := GetPDUSessionResourceSetupResponse(1, 1, 256, "10.0.0.1"); err == nil {
 		panic(vc.Failure{Kind: "bounded", Label: "PDU session id 256 was put on the wire"})
 	}
+}
+
+func vcSeedValue() int64 {
+	v, _ := strconv.ParseInt(os.Getenv("VERIF_SEED"), 10, 64)
+	return v
 }
